@@ -1357,8 +1357,10 @@ def check_contract(h, res):
             if any(x is not None and x.startswith("!") for x in (e[2], e[3])):
                 why = "path-outside-root"
             moved_out_dirs = [o[1] for o, _ in h.history if o[0] == "move_out"]
-            if any(e[2] is not None and (e[2] == d or inside(e[2], d)) for d in moved_out_dirs) and \
-                    any(o[0] in ("out_touch", "out_rmtree") for o, _ in h.history):
+            during_outside_op = 0 <= e[0] < len(h.history) and h.history[e[0]][0][0] in ("out_touch", "out_rmtree")
+            if during_outside_op or (
+                    any(e[2] is not None and (e[2] == d or inside(e[2], d)) for d in moved_out_dirs) and
+                    any(o[0] in ("out_touch", "out_rmtree") for o, _ in h.history)):
                 why = "event for an entry of a directory that was moved out of the tree"
             elif e[5]:
                 why = "unjustified synthetic event"
